@@ -1,14 +1,42 @@
-"""packer/src/lib.rs: the integer literals of read_int / write_int / finish, in source order."""
+"""packer/src/lib.rs: literal ties for read_int / write_int / finish.
+
+`lits_<fn>`: the integer literals of the function in source order (kept for reference).
+`sig_<fn>`: the *significant* constants of the function — every integer literal of value >= 5 (>= 2 for `finish` / `new_from_demo`) after
+file-level `const NAME: T = <int>;` definitions have been substituted for their names — as a sorted
+multiset.  The tie theorems of C08 pin the `sig_` lists (masks 0x3f/0x7f/0x80/0xf0, digit widths 6/7,
+buffer size 5): they survive renaming a magic number into a named constant or restructuring the
+loop, and break when a mask, width or limit changes."""
+import re
 import exlib
+
+
+def file_consts(src):
+    out = {}
+    for m in re.finditer(r"\bconst\s+([A-Z][A-Z0-9_]*)\s*:\s*[A-Za-z0-9_]+\s*=\s*([^;]+);", src):
+        v = exlib.int_literals(m.group(2))
+        if len(v) == 1 and re.fullmatch(r"\s*(0b[01_]+|0x[0-9a-fA-F_]+|[0-9][0-9_]*)\s*", m.group(2)):
+            out[m.group(1)] = v[0]
+    return out
+
+
+def resolved_literals(body, consts):
+    def sub(m):
+        return str(consts[m.group(0)]) if m.group(0) in consts else m.group(0)
+    return exlib.int_literals(re.sub(r"\b[A-Z][A-Z0-9_]*\b", sub, body))
 
 
 def run(repo):
     rel = "packer/src/lib.rs"
     src = exlib.strip_rust_comments(exlib.read(repo, rel))
+    consts = file_consts(src)
     s = exlib.HEADER + "namespace Tw.Gen.Packer\n\n"
     for fn, which in (("read_int", 0), ("write_int", 0), ("to_bit", 0), ("finish", 0), ("string_to_ints", 0), ("new_from_demo", 0)):
         body = exlib.fn_body(src, fn, which, rel)
         s += "/-- integer literals of `fn %s` in %s, in source order -/\n" % (fn, rel)
-        s += "def lits_%s : List Nat := %s\n\n" % (fn, exlib.lean_nat_list(exlib.int_literals(body)))
+        s += "def lits_%s : List Nat := %s\n" % (fn, exlib.lean_nat_list(exlib.int_literals(body)))
+        lim = 2 if fn in ("finish", "new_from_demo") else 5
+        sig = sorted(v for v in resolved_literals(body, consts) if v >= lim)
+        s += "/-- significant constants (>= 5, named constants resolved) of `fn %s`, sorted -/\n" % fn
+        s += "def sig_%s : List Nat := %s\n\n" % (fn, exlib.lean_nat_list(sig))
     s += "end Tw.Gen.Packer\n"
     return {"Packer.lean": s}
